@@ -2165,7 +2165,8 @@ class C09(Prop):
             'strings up to the bound over the 6 symbols; every table built as a Vec of boxed operators and as a tuple; parse and check; '
             'observation = the fully parenthesised tree (with the span given to each fold callback) and errors; non-trivial = input with '
             'at least one operator symbol')
-    level_text = ('refinement theorem prattGo -> textbook binding-power reading for every table/input, shape (power-respecting), maximality '
+    level_text = ('refinement theorem prattGo -> textbook binding-power reading for every table/input (also recursive tables: the expression '
+                  'inside its own atom / operator parsers), shape (power-respecting), maximality '
                   '(missing operand left unconsumed) and token-order theorems (Lean); trees of the real crate compared with the reading and '
                   'the model, Vec and tuple tables against each other')
 
@@ -3063,7 +3064,8 @@ class C16(Prop):
             'three implementation-only families: nest(a, select g) on [g] = a on children(g) (output and every error), remainder after a '
             'nested parse = the outer tokens after the group, choice over a failed nested parse = its other alternative; '
             'non-trivial = the input contains a group token')
-    level_text = ('refinement theorem for the two-level language (machine of nested_in/with_input -> recursive reading, every grammar, token '
+    level_text = ('refinement theorems: the two-level language, nested_in at ANY position of any grammar (hole form), and nested inputs '
+                  'together with Pratt tables (extension machine) (machine of nested_in/with_input -> recursive reading, every grammar, token '
                   'tree, mode, fuel), completeness / leftover-fails / backtracking / failure-merge theorems (Lean); outputs, error lists and '
                   'spans of the real crate over Input::map token trees compared with the reading and the model, plus three '
                   'implementation-only metamorphic families')
